@@ -37,17 +37,17 @@ ProofOf(pv, px, ps) ==
   IF pv < 0 THEN [has |-> FALSE]
   ELSE [has |-> TRUE, ppht |-> "PP", ppinst |-> 0, pph |-> H, ppv |-> pv, ppvm |-> pv % N, ppx |-> px, pps |-> Ldr(pv), ppsig |-> TRUE,
         pht |-> "P", pinst |-> 0, ph |-> H, pv |-> pv, px |-> px, ps |-> ps]
-VoteRec(s, v, pv, px, ps) == [ht |-> "VC", inst |-> 0, h |-> H, v |-> v, vm |-> v % N, s |-> s, sig |-> TRUE, proof |-> ProofOf(pv, px, ps)]
+VoteRec(s, v, pv, px, ps) == [ht |-> "VC", inst |-> 0, h |-> H, v |-> v, vm |-> v % N, s |-> s, sig |-> TRUE, canon |-> TRUE, proof |-> ProofOf(pv, px, ps)]
 ToMsg(d, n) ==
-  CASE d.k = "PP" -> [k |-> "PP", ht |-> "PP", inst |-> 0, h |-> H, v |-> d.v, vm |-> d.v % N, x |-> d.x, s |-> n, sig |-> TRUE,
+  CASE d.k = "PP" -> [k |-> "PP", ht |-> "PP", inst |-> 0, h |-> H, v |-> d.v, vm |-> d.v % N, x |-> d.x, s |-> n, sig |-> TRUE, canon |-> TRUE,
                       blk |-> d.blk, bok |-> TRUE, okfor |-> OkFor(d.blk)]
-    [] d.k = "P"  -> [k |-> "P", ht |-> "P", inst |-> 0, h |-> H, v |-> d.v, vm |-> d.v % N, x |-> d.x, s |-> n, sig |-> TRUE]
-    [] d.k = "C"  -> [k |-> "C", ht |-> "C", inst |-> 0, h |-> H, v |-> d.v, vm |-> d.v % N, x |-> d.x, s |-> n, sig |-> TRUE, share |-> TRUE]
+    [] d.k = "P"  -> [k |-> "P", ht |-> "P", inst |-> 0, h |-> H, v |-> d.v, vm |-> d.v % N, x |-> d.x, s |-> n, sig |-> TRUE, canon |-> TRUE]
+    [] d.k = "C"  -> [k |-> "C", ht |-> "C", inst |-> 0, h |-> H, v |-> d.v, vm |-> d.v % N, x |-> d.x, s |-> n, sig |-> TRUE, canon |-> TRUE, share |-> TRUE]
     [] d.k = "VC" -> VoteRec(n, d.v, d.pv, d.px, SetToSeq({[s |-> m, sig |-> TRUE] : m \in d.ps}))
                      @@ [k |-> "VC", blk |-> d.blk, bok |-> TRUE, to |-> d.to]
     [] d.k = "NV" -> [k |-> "NV", ht |-> "NV", inst |-> 0, h |-> H, v |-> d.v, vm |-> d.v % N, s |-> n, sig |-> TRUE,
                       votes |-> SetToSeq({VoteRec(t.s, d.v, t.pv, t.px, CanonPs(t.pv)) : t \in d.votes}),
-                      pp |-> [ht |-> "PP", inst |-> 0, h |-> H, v |-> d.v, vm |-> d.v % N, x |-> d.x, s |-> n, sig |-> TRUE],
+                      pp |-> [ht |-> "PP", inst |-> 0, h |-> H, v |-> d.v, vm |-> d.v % N, x |-> d.x, s |-> n, sig |-> TRUE, canon |-> TRUE],
                       blk |-> d.blk, bok |-> TRUE, okfor |-> OkFor(d.blk)]
 
 \* ---- what the Byzantine member B can send
@@ -56,21 +56,41 @@ LeaderSigned(v, x) == Ldr(v) = B \/ \E m \in net : (m.k = "PP" /\ m.v = v /\ m.x
 ProofAvail(pv, px) == LeaderSigned(pv, px) /\ IsQuorum(H, ((HonestPrepares(pv, px) \cup {B}) \ {Ldr(pv)}) \cup {Ldr(pv)})
 ByzProofs(v) == {<<-1, "-">>} \cup {<<pv, px>> \in (0..(v - 1)) \X Blocks : ProofAvail(pv, px)}
 ByzVote(v, pr) == VoteRec(B, v, pr[1], pr[2], SetToSeq({[s |-> m, sig |-> TRUE] : m \in (HonestPrepares(pr[1], pr[2]) \cup {B}) \ {Ldr(pr[1])}}))
-GenuineVotes(v) == {[ht |-> m.ht, inst |-> m.inst, h |-> m.h, v |-> m.v, vm |-> m.vm, s |-> m.s, sig |-> m.sig, proof |-> m.proof] :
+GenuineVotes(v) == {[ht |-> m.ht, inst |-> m.inst, h |-> m.h, v |-> m.v, vm |-> m.vm, s |-> m.s, sig |-> m.sig, canon |-> m.canon, proof |-> m.proof] :
                       m \in {q \in net : q.k = "VC" /\ q.v = v /\ B \in q.to}}
 BlkOfProof(t) == IF t.proof.has THEN t.proof.ppx ELSE "-"
 ByzMsgs ==
-     {[k |-> "PP", ht |-> "PP", inst |-> 0, h |-> H, v |-> v, vm |-> v % N, x |-> x, s |-> B, sig |-> TRUE, blk |-> x, bok |-> TRUE, okfor |-> OkFor(x)] :
+     {[k |-> "PP", ht |-> "PP", inst |-> 0, h |-> H, v |-> v, vm |-> v % N, x |-> x, s |-> B, sig |-> TRUE, canon |-> TRUE, blk |-> x, bok |-> TRUE, okfor |-> OkFor(x)] :
         v \in {u \in Views : Ldr(u) = B}, x \in Blocks}
-  \cup {[k |-> "P", ht |-> "P", inst |-> 0, h |-> H, v |-> v, vm |-> v % N, x |-> x, s |-> B, sig |-> TRUE] : v \in Views, x \in Blocks}
-  \cup {[k |-> "C", ht |-> "C", inst |-> 0, h |-> H, v |-> v, vm |-> v % N, x |-> x, s |-> B, sig |-> TRUE, share |-> TRUE] : v \in Views, x \in Blocks}
+  \cup {[k |-> "P", ht |-> "P", inst |-> 0, h |-> H, v |-> v, vm |-> v % N, x |-> x, s |-> B, sig |-> TRUE, canon |-> TRUE] : v \in Views, x \in Blocks}
+  \cup {[k |-> "C", ht |-> "C", inst |-> 0, h |-> H, v |-> v, vm |-> v % N, x |-> x, s |-> B, sig |-> TRUE, canon |-> TRUE, share |-> TRUE] : v \in Views, x \in Blocks}
   \cup UNION {{ByzVote(v, pr) @@ [k |-> "VC", blk |-> pr[2], bok |-> TRUE, to |-> {Ldr(v)}] : pr \in ByzProofs(v)} : v \in Views \ {0}}
   \cup UNION {UNION {{[k |-> "NV", ht |-> "NV", inst |-> 0, h |-> H, v |-> v, vm |-> v % N, s |-> B, sig |-> TRUE,
                        votes |-> SetToSeq(vs \cup {ByzVote(v, pr)}),
-                       pp |-> [ht |-> "PP", inst |-> 0, h |-> H, v |-> v, vm |-> v % N, x |-> x, s |-> B, sig |-> TRUE],
+                       pp |-> [ht |-> "PP", inst |-> 0, h |-> H, v |-> v, vm |-> v % N, x |-> x, s |-> B, sig |-> TRUE, canon |-> TRUE],
                        blk |-> x, bok |-> TRUE, okfor |-> OkFor(x)] :
                         vs \in SUBSET GenuineVotes(v), pr \in ByzProofs(v)} : x \in Blocks}
               : v \in {u \in Views \ {0} : Ldr(u) = B}}
+
+\* messages that only matter when a guard is ablated: unsigned / forged parts, wrong roles, stale votes, made-up proofs
+FakeProof(pv, px) == [ProofOf(pv, px, SetToSeq({[s |-> m, sig |-> FALSE] : m \in Honest \ {Ldr(pv)}})) EXCEPT !.ppsig = (Ldr(pv) = B)]
+UnsignedVote(s, v) == [VoteRec(s, v, -1, "-", <<>>) EXCEPT !.sig = FALSE]
+NVOf(v, votes, x) == [k |-> "NV", ht |-> "NV", inst |-> 0, h |-> H, v |-> v, vm |-> v % N, s |-> B, sig |-> TRUE, votes |-> SetToSeq(votes),
+                      pp |-> [ht |-> "PP", inst |-> 0, h |-> H, v |-> v, vm |-> v % N, x |-> x, s |-> B, sig |-> TRUE, canon |-> TRUE],
+                      blk |-> x, bok |-> TRUE, okfor |-> OkFor(x)]
+ByzDefective ==
+     {[k |-> "PP", ht |-> "PP", inst |-> 0, h |-> H, v |-> v, vm |-> v % N, x |-> x, s |-> B, sig |-> TRUE, canon |-> TRUE, blk |-> x, bok |-> TRUE, okfor |-> OkFor(x)] :
+        v \in Views, x \in Blocks}
+  \cup {[k |-> kk, ht |-> kk, inst |-> 0, h |-> H, v |-> v, vm |-> v % N, x |-> x, s |-> hs, sig |-> FALSE, canon |-> TRUE, share |-> TRUE] :
+        kk \in {"P", "C"}, v \in Views, x \in Blocks, hs \in Honest}
+  \cup UNION {{NVOf(v, {UnsignedVote(hs, v) : hs \in Honest} \cup {ByzVote(v, <<-1, "-">>)}, x) : x \in Blocks} : v \in {u \in Views \ {0} : Ldr(u) = B}}
+  \cup UNION {{NVOf(v, {[t EXCEPT !.v = t.v] : t \in UNION {GenuineVotes(u) : u \in 1..(v - 1)}} \cup {ByzVote(v, <<-1, "-">>)}, x) : x \in Blocks}
+              : v \in {u \in Views \ {0} : Ldr(u) = B}}
+  \cup UNION {{NVOf(v, GenuineVotes(v) \cup {[VoteRec(B, v, pv, x, <<>>) EXCEPT !.proof = FakeProof(pv, x)]}, x) : x \in Blocks, pv \in 0..(v - 1)}
+              : v \in {u \in Views \ {0} : Ldr(u) = B}}
+  \cup UNION {{[VoteRec(B, v, pv, x, <<>>) EXCEPT !.proof = FakeProof(pv, x)] @@ [k |-> "VC", blk |-> x, bok |-> TRUE, to |-> {Ldr(v)}] :
+                 x \in Blocks, pv \in 0..(v - 1)} : v \in Views \ {0}}
+ByzAll == IF Ablate = {} THEN ByzMsgs ELSE ByzMsgs \cup ByzDefective
 
 \* ---- the system
 Init == /\ hdr = Hdr
@@ -102,7 +122,7 @@ Time(n) == /\ Active(n) /\ nodes[n].ns.h = H /\ nodes[n].ns.view < MaxView
 Next == \E n \in Honest :
           \/ Start(n) \/ Time(n)
           \/ (\E m \in net : m.s # n /\ Recv(n, m) /\ UNCHANGED <<hdr, bz>>)
-          \/ (bz < ByzBudget /\ \E m \in ByzMsgs : Recv(n, m) /\ bz' = bz + 1 /\ UNCHANGED hdr)
+          \/ (bz < ByzBudget /\ \E m \in ByzAll : Recv(n, m) /\ bz' = bz + 1 /\ UNCHANGED hdr)
 Spec == Init /\ [][Next]_mcvars
 
 \* ---- properties
